@@ -47,10 +47,15 @@ for d in sorted(os.listdir(os.path.join(V, "seeded"))):
                                   "note": ("found but not reported: the single work item did not reproduce the history-dependent fault "
                                            "when re-executed in another process; fixed by per-task process isolation")
                                   if f["target_check_rc"] == 2 else ""}
-        else:                           # round 2: checks as they were when the round-2 agents delivered
-            meta["first_pass"] = {"what": "checks as committed when the second-round changes were delivered (commit bbd2bb2 + 1), before the "
-                                          "second strengthening", "caught_by": f.get("caught_by", []), "silent": f.get("silent", []),
+        else:                           # rounds 2 and 3: checks as they were when the agents of that round delivered
+            r3 = d[3] in "ef"
+            meta["first_pass"] = {"what": ("checks as committed when the third-round changes were delivered (commit 4361130), before the third "
+                                           "strengthening") if r3 else
+                                          ("checks as committed when the second-round changes were delivered (commit bbd2bb2 + 1), before the "
+                                           "second strengthening"), "caught_by": f.get("caught_by", []), "silent": f.get("silent", []),
                                   "reported": prop in f.get("caught_by", [])}
+            if f.get("note"):
+                meta["first_pass"]["note"] = f["note"]
     if "first_pass" in meta and "caught_by" in meta["first_pass"]:
         # the last run covered the target check only; checks that caught the change earlier still do (checks were only extended)
         meta["caught_by"] = sorted(set(meta["caught_by"]) | set(meta["first_pass"]["caught_by"]))
